@@ -526,9 +526,18 @@ func (sk sortedKeys) Len() int {
 	return len(sk)
 }
 
+// sortOperand looks through an interface-typed element ([]any, map[any]T):
+// what is compared is the value the interface holds.
+func sortOperand(rv reflect.Value) *Value {
+	for rv.IsValid() && rv.Kind() == reflect.Interface && !rv.IsNil() {
+		rv = rv.Elem()
+	}
+	return &Value{val: rv}
+}
+
 func (sk sortedKeys) Less(i, j int) bool {
-	vi := &Value{val: sk[i]}
-	vj := &Value{val: sk[j]}
+	vi := sortOperand(sk[i])
+	vj := sortOperand(sk[j])
 	switch {
 	case vi.IsInteger() && vj.IsInteger():
 		return vi.Integer() < vj.Integer()
@@ -550,8 +559,8 @@ func (vl valuesList) Len() int {
 }
 
 func (vl valuesList) Less(i, j int) bool {
-	vi := vl[i]
-	vj := vl[j]
+	vi := sortOperand(vl[i].val)
+	vj := sortOperand(vl[j].val)
 	switch {
 	case vi.IsInteger() && vj.IsInteger():
 		return vi.Integer() < vj.Integer()
